@@ -116,3 +116,21 @@ def anchor_files(prop: str) -> set[str]:
         if p["id"] == prop:
             return set(p["anchors"]["files"])
     raise AnalysisError(f"property {prop} not in properties.jsonl")
+
+
+def anchor_scope(ctx: "Ctx", prop: str) -> set[str]:
+    """Anchor files of a property plus the files defining a base class of any class in them: the inherited code runs as part of
+    the anchored classes (a calculator's conversions live in its abstract bases)."""
+    key = f"anchor_scope.{prop}"
+    if key not in ctx.cache:
+        files = set(anchor_files(prop))
+        M = ctx.M
+        for lst in M.classes.values():
+            for c in lst:
+                if c.mod.rel in files:
+                    for b in M.mro(c):
+                        if b.mod.rel.startswith("pyoda_time/"):
+                            files.add(b.mod.rel)
+        ctx.cache[key] = files
+    return ctx.cache[key]
+
